@@ -59,6 +59,7 @@ def chunk(args):
     res["bad"] = cmp.bad
     res["nfields"] = cmp.nfields
     res["worst"] = cmp.worst
+    res["worst_name"] = cmp.worst_name
     if cmp.bad or res["tables"]:
       res["xml"] = b.xml
     out.append(res)
@@ -84,13 +85,14 @@ def run(ctx, modname: str, fname: str, recs: List[Dict[str, Any]], nworld: int =
       if r["status"] == "exc":
         raise RuntimeError(f"harness exception on {c}:\n{r['exc']}\n{r.get('xml', '')[:3000]}")
       ctx.case({"cfg": c}, nontrivial=c["nb"] > 1 or bool(c.get("feats")), key=c)
-      worst = max(worst, r["worst"])
+      if r["worst"] > worst:
+        worst = r["worst"]
+        ctx.extra["worst_field"] = r.get("worst_name", "")
       nf += r["nfields"]
       for t in r["tables"]:
         ctx.violation(dict(key_extra or {}, what="put_model table differs from ModelFamily.tla", table=t.split(":")[0]), t, dict(scen, xml=r.get("xml")))
-      if r["bad"]:
-        name = r["bad"][0][0]
+      for name in sorted({b[0] for b in r["bad"]}):  # one violation per distinct field, so that a known finding on one field hides no other
         ctx.violation(dict(key_extra or {}, what=what or "field differs from MuJoCo C", field=name),
-                      "; ".join(f"{n}: err {e:.3g} scale {s:.3g}" for n, e, s in r["bad"][:8]), dict(scen, xml=r.get("xml")))
+                      "; ".join(f"{n}: err {e:.3g} scale {s:.3g}" for n, e, s in r["bad"] if n == name)[:600], dict(scen, xml=r.get("xml")))
   ctx.extra["fields_compared"] = ctx.extra.get("fields_compared", 0) + nf
   ctx.extra["worst_error_over_tolerance"] = round(max(worst, ctx.extra.get("worst_error_over_tolerance", 0.0)), 4)
